@@ -519,7 +519,7 @@ def E3(ctx):
         cb = prog.fns[k].body
         for b, blk in enumerate(cb.blocks):
             for s in blk["stmts"]:
-                if s["k"] == "=" and s["lhs"]["l"] == 0 and s["rv"]["k"] == "agg" and s["rv"].get("variant") == "Active":
+                if s["k"] == "=" and s["rv"]["k"] == "agg" and s["rv"].get("adt") == "rt::path::Thread" and s["rv"].get("variant") == "Active":
                     g = [canon(ge) for (ge, pol, v, sb) in guard_atoms(cb, b) if pol is True]
                     if any(lname in x and "eq(" in x for x in g):
                         act = True
@@ -712,6 +712,21 @@ def B2(ctx):
                             (m, sk, ex, panic, ps, returns), fn.loc(), detail="%s-%s" % (sk, ex))
 
 
+def _is_limit_test(e):
+    """`<branches>.len() < <limit>` (whatever the limit is)."""
+    return e[0] == "binop" and e[1] == "Lt" and "Store::<T>::len" in canon(e[2]) and mentions_field(e[2], P, "branches") is not None
+
+
+def _is_config_limit_field(prog, f):
+    """Path.f is initialised by Path::new from a parameter and assigned by set_max_branches from its parameter."""
+    ctor = [w for w in prog.writers().get((P, f), []) if w["kind"] == "construct" and w["fn"] == P + "::new"
+            and strip(prog.fns[w["fn"]].body.expr_of_operand(w["op"]))[0] == "param"]
+    sets = [w for w in prog.writers().get((P, f), []) if w["kind"] == "assign" and w["fn"] == P + "::set_max_branches"
+            and strip(rv_expr(prog, w))[0] == "param" and every_path_passes(prog.fns[w["fn"]].body, [w["bb"]])]
+    others = [w for w in prog.writers().get((P, f), []) if w["kind"] in ("assign", "borrow_mut") and w["fn"] != P + "::set_max_branches"]
+    return bool(ctor) and bool(sets) and not others
+
+
 def B3(ctx):
     """Every insertion into Path.branches is dominated by the capacity assertion with the documented message."""
     prog = ctx.prog
@@ -727,34 +742,50 @@ def B3(ctx):
         ins = [b for (b, t, c) in prog.sites(inst) if prog.callee_key(c) == "rt::object::Store::<T>::insert"]
         ps = [b for (b, msg) in panic_sites(prog, fk, MSG)]
         n += 1
-        full = assume_all(assume_calls({"std::thread::panicking": False}),
-                          assume_expr(lambda e: False if (e[0] == "binop" and e[1] == "Lt" and "Store::<T>::len" in canon(e[2])
-                                                          and "Store::<T>::capacity" in canon(e[3])) else None))
-        room = assume_expr(lambda e: True if (e[0] == "binop" and e[1] == "Lt" and "Store::<T>::len" in canon(e[2])
-                                              and "Store::<T>::capacity" in canon(e[3])) else None)
+        full = assume_all(assume_calls({"std::thread::panicking": False}), assume_expr(lambda e: False if _is_limit_test(e) else None))
+        room = assume_expr(lambda e: True if _is_limit_test(e) else None)
         r_full, _ = PEval(body, full).run()
         r_room, _ = PEval(body, room).run()
         ok = ins and ps and not any(b in r_full for b in ins) and any(b in r_full for b in ps) and all(b in r_room for b in ins) \
             and not any(b in r_room for b in ps)
         if ok:
-            ctx.ok("B3", fk, "insert only if len < capacity; otherwise the documented panic", [site_str(prog, fk, ins[0]), site_str(prog, fk, ps[0])])
+            ctx.ok("B3", fk, "insert only if len < limit; otherwise the documented panic", [site_str(prog, fk, ins[0]), site_str(prog, fk, ps[0])])
         else:
             ctx.bad("B3", fk, "the branch limit is not enforced before inserting a branch in %s (or the documented message \"%s...\" changed)" % (m, MSG),
                     fn.loc())
+        # what the length is compared against: the configured limit itself, i.e. a field of Path that Path::new and
+        # set_max_branches take from their `max_branches` argument - not the allocation's capacity, which a deserialised or
+        # grown vector exceeds
+        for b in range(body.n):
+            t = body.term(b)
+            if t["k"] != "switch":
+                continue
+            e = body.expr_of_operand(t["op"])
+            if not _is_limit_test(e):
+                continue
+            rhs = strip(e[3])
+            if rhs[0] == "field" and rhs[3] == P and _is_config_limit_field(prog, rhs[2]):
+                ctx.ok("B3", fk + ":limit", "compared against the configured Path.%s" % rhs[2], [site_str(prog, fk, b)])
+            else:
+                ctx.bad("B3", P, "the branch limit is enforced against `%s`, not against the configured max_branches: a path loaded from a "
+                        "checkpoint has the capacity serde's growth left it (next power of two), so a resumed run accepts executions the "
+                        "uninterrupted run rejects" % canon(rhs)[:60], site_str(prog, fk, b), detail="limit-by-capacity")
     fk = P + "::set_max_branches"
     fn = need_fn(ctx, "B3", fk)
     if fn is not None:
         n += 1
         inst = prog.ident(fk)
         ok = False
+        pn = param_name(fn, "usize") or "max_branches"
         for (b, t, c) in prog.sites(inst):
             if prog.callee_key(c) == "rt::object::Store::<T>::reserve_exact":
                 a = canon(arg_expr(fn.body, t, 1))
-                ok = "max_branches Sub" in a and "Store::<T>::len" in a
-        if ok:
-            ctx.ok("B3", fk, "reserve_exact(max_branches - len)", [fn.loc()])
+                ok = ("%s Sub" % pn) in a and "Store::<T>::len" in a
+        sets = any(_is_config_limit_field(prog, f["name"]) for f in prog.adts[P]["variants"][0]["fields"])
+        if ok or sets:
+            ctx.ok("B3", fk, "installs the configured limit (%s)" % ("limit field" if sets else "reserve_exact(max_branches - len)"), [fn.loc()])
         else:
-            ctx.bad("B3", fk, "set_max_branches must reserve exactly the configured capacity", fn.loc())
+            ctx.bad("B3", fk, "set_max_branches must install the configured limit", fn.loc())
     ctx.floor("B3", n, 4, "3 insert sites + set_max_branches")
 
 
